@@ -248,7 +248,26 @@ func TestVerifC15ResolverState(t *testing.T) {
 		cc := &c15rConn{}
 		b := &discovBuilder{}
 		ops = append(ops, "build")
-		_, err := b.Build(resolver.Target{URL: url.URL{Scheme: DiscovSchema, Host: strings.Join(hosts, EndpointSep), Path: "/" + svc}}, cc, resolver.BuildOptions{})
+		var err error
+		if !vk.Within(c15rWatchdog, func() {
+			_, err = b.Build(resolver.Target{URL: url.URL{Scheme: DiscovSchema, Host: strings.Join(hosts, EndpointSep), Path: "/" + svc}}, cc, resolver.BuildOptions{})
+		}) {
+			stuck := ""
+			for _, g := range vk.GoroutinesIn("discov.NewSubscriber") {
+				if strings.Contains(g, "sync.(*Mutex).Lock") && strings.Contains(g, "lib/discov/internal.") {
+					stuck = g
+				}
+			}
+			if stuck != "" {
+				if len(stuck) > 1800 {
+					stuck = stuck[:1800]
+				}
+				m.Violate("C15:attach:hang:cluster-lock", desc(), "discovBuilder.Build did not return within %v: NewSubscriber is parked on a lock of the registry that nobody is going to release:\n%s", c15rWatchdog, stuck)
+			} else {
+				m.Inconclusive("case %d: Build did not return within %v", idx, c15rWatchdog)
+			}
+			return
+		}
 		if err != nil {
 			m.Inconclusive("case %d: Build: %v", idx, err)
 			return
